@@ -11,9 +11,10 @@ CLAIMED = {
         'Coq proof (induction over histories, frame/isolation lemma over all schedules) of a hand-written '
         'Gallina state machine + differential correspondence with the real Config/InverseOperator/threads',
         'All well-nested histories of any depth and all thread schedules are covered by theorems about the model '
-        '(restore, innermost_wins, ends_with_defaults, capture, thread_isolation); the model is tied to the code by '
+        '(restore, innermost_wins, ends_with_defaults, capture, capture_effect / effects_determine_every_setting, thread_isolation); the model is tied to the code by '
         'running the same histories (exhaustive up to 5-6 events, plus seeded random, plus all interleavings of short '
-        'thread histories on real threads) on the real code and on the model evaluated by vm_compute.',
+        'thread histories on real threads) on the real code and on the model evaluated by vm_compute; every captured '
+        'setting is observed through its EFFECT on op.I(y) (failing and converging solves identified against NumPy CG references).',
         'Trusts CPython contextvars semantics as modelled, the abstraction of setting values to identifiers, the '
         'correspondence harness; Coq kernel; no axioms (theorems closed under the global context).',
         'DESIGN.md section 4, C19',
@@ -98,8 +99,10 @@ CLAIMED = {
         'correspondence incl. maps around 2^31 pixels in both x64 modes; healpy agreement tested numerically only',
         'p2i_spec/formula/row_major/bijection_*/outside/minus_one_iff/rounding/no_wrap/invalid_masked, dtype_wide_enough, '
         'dtype_dims_strides_fit, coverage_histogram, constructor theorems: all shapes, all coordinates. Tie: C-tie on '
-        'quarter-integer grids over all small shapes and on adversarial huge shapes (2^31 boundary), coverage on random and '
-        'adversarial samplings. Partial: jax_healpy.ang2pix vs healpy is a numerical cross-check, not a theorem.',
+        'quarter-integer grids over all small shapes and on adversarial huge shapes (2^31 boundary), coverage over Sampling '
+        'fields of different broadcastable shapes (model of NumPy broadcasting: coverage_of_broadcast_sampling). Partial: '
+        'jax_healpy.ang2pix vs healpy is a numerical cross-check (both x64 modes, float32/float64 landscapes, nside up to '
+        '8192 / 2^20, index corners, longitudes one ulp below 0; a mismatch is reported as VIOLATION), not a theorem.',
         'Trusts Gallina specs of jnp.round, astype saturation, int32/int64 wrap, unique/scatter-add (compared with JAX), '
         'coordinates as exact rationals, jax_healpy.ang2pix not modelled (healpy clause partial), the harness, Coq kernel.',
         'DESIGN.md section 4, C17',
@@ -172,7 +175,7 @@ CLAIMED = {
         'expressions QURotationRule computes; R.HWP = HWP.R^T, P.HWP = P; factories = explicit products; reduce of any chain '
         'over {R, R^T, HWP, P} preserves the map; stage 2 discharges the polarimetry leaf_facts assumed by C01 for the '
         'executable leaf semantics; differential correspondence + NumPy Mueller oracle',
-        '48 obligations, all closed under the global context (the Coq.Reals instance file depends on the standard real '
+        '47 obligations, all closed under the global context (the Coq.Reals instance file depends on the standard real '
         'axioms sig_forall_dec, sig_not_dec, functional_extensionality_dep). Tie: all chains of length <= 4 x 4 Stokes kinds '
         'x broadcast angle arrays (k.pi/4 exact; Pythagorean generic angles at 1e-12 under x64), factories, same-object '
         'patterns.',
@@ -216,7 +219,7 @@ CLAIMED = {
         'independence, error propagation, kind rejection, factories, from_stokes/from_iquv, the dtype promotion table as a '
         'least upper bound, structure preservation of the *_like / as_structure / as_promoted_dtype helpers, dot as the '
         'Hermitian sum over a ring with involution; differential correspondence in both x64 modes with exact oracle',
-        '49 obligations closed under the global context. Tie: C-tie on ~5900 (quick) cases: kinds x shapes x dtypes x '
+        '51 obligations closed under the global context (incl. index_componentwise over a total model of NumPy basic/advanced indexing). Tie: C-tie on ~7700 (quick) cases: kinds x shapes x dtypes x ~500 index forms x '
         'operand forms x all dunders in both orders with distinct prime components; jnp.result_type compared on all 12x12 '
         'pairs and 12^3 triples in both x64 modes (finite: exhaustive).',
         'JAX leaf primitives are Gallina specifications checked against JAX by the harness; exact rationals for floats; '
@@ -232,7 +235,7 @@ CLAIMED = {
         'constructor / mv / .T / .I / as_matrix / reduce / products of the real blocks.py with NumPy/SciPy oracle',
         'blockdiag/blockcol/blockrow_spec, blockrow_single, block*_matrix, block*_dense, matrix_is_basis_columns, '
         'block_transposes(+adjoint), blockdiag_inverse(_sound), ctor_ok_iff, ctor_rejects_mismatch, '
-        'block_rules_fire_iff_same_treedef, block_rules_sound, row_col_is_sum: 36 obligations closed under the global '
+        'block_rules_fire_iff_same_treedef, block_rules_sound, row_col_is_sum, ctor_rejects_other_container: 39 obligations closed under the global '
         'context, nothing partial. Tie: C-tie on 9 container shapes x ~25 block kinds and all compatible pairs of ~50 block '
         'operators (592 quick / 1808 thorough cases).',
         'Matrix forms assume each block acts as a matrix (shown for the measured-matrix leaves of Exec by '
@@ -249,7 +252,7 @@ CLAIMED = {
         'discharged for the executable leaf rules and for measured-matrix leaves; differential correspondence in both x64 modes',
         'out_structure_honest, application_defined, sizes_agree, block_sizes, promoted_dtype_is_join, '
         'out_structure_honest_dtypes, declared_is_evaluated, composite_structs, transpose_structs, exec_leaf_honest/defined: '
-        '17 obligations closed under the global context. Tie: C-tie on every class x layouts x data dtype {f32,f64,i32,mixed} '
+        '20 obligations closed under the global context (incl. the shape model of the diagonal constructors: diagonal_ctor_honest). Tie: C-tie on every class x layouts x data dtype {f32,f64,i32,mixed} '
         'x parameter dtype x x64 on/off: out_structure() vs eval_shape vs actual mv(x) vs model (1336 quick / 5460 thorough).',
         'Partial: structures of REDUCED and INVERTED operators (reduce_structs, inverse_structs) are checked by '
         'correspondence only. Default-out_structure leaves carry the real declaration in the term; JAX eval_shape / '
